@@ -206,6 +206,37 @@ pub fn build_subject(seed: u64, case: u64, tag: &str) -> Subject {
     Subject { world: w, opts, complete, bands, desc, expected }
 }
 
+/// Scale: one complete version of 10 040 files with one entry per index hunk, so that the
+/// band has hunks in two index subdirectories.
+pub fn build_scale_subject(seed: u64, tag: &str) -> Subject {
+    let mut w = crate::history::many_hunks_world(tag, seed);
+    let opts = crate::history::MANY_HUNKS_OPTS;
+    let r = w.backup(opts);
+    assert!(r.backup.as_ref().unwrap().clean(), "scale backup failed");
+    let desc = vec![format!("[10 040-file tree] {}", r.desc)];
+    let dest = w.sc.fresh("pre");
+    let out = restore_outcome(&w.arch, 0, &dest);
+    assert!(out.clean(), "pre-damage restore of the scale subject: {}", out.describe());
+    let mut expected = BTreeMap::new();
+    expected.insert(0, crate::tree::snapshot(&dest).expect("snapshot"));
+    crate::scratch::rm(&dest);
+    Subject { world: w, opts, complete: [0u32].into_iter().collect(), bands: vec![0], desc, expected }
+}
+
+/// The damages tried on the scale subject: hunks on both sides of the subdirectory boundary.
+pub fn scale_damages() -> Vec<Damage> {
+    let hunk = |n: u32| format!("b0000/{}", fmt06::hunk_relpath(n));
+    let mut v = Vec::new();
+    for n in [5u32, 9_999, 10_000, 10_030] {
+        v.push(Damage { relpath: hunk(n), action: Action::Delete });
+        v.push(Damage { relpath: hunk(n), action: Action::Truncate0 });
+    }
+    v.push(Damage { relpath: hunk(7), action: Action::Garbage });
+    v.push(Damage { relpath: hunk(10_001), action: Action::TruncateHalf });
+    v.push(Damage { relpath: hunk(10_040), action: Action::Delete });
+    v
+}
+
 /// For each band: for each path of its (stitched) listing, the archive files its restore depends
 /// on: the hunk file the entry is in, the BANDHEAD of that hunk's band, its blocks.
 pub fn dependencies(raw: &Raw, band: u32) -> BTreeMap<String, BTreeSet<String>> {
